@@ -153,7 +153,7 @@ type TLCResult struct {
 
 var reStates = regexp.MustCompile(`(\d+) states generated, (\d+) distinct states found`)
 var reInv = regexp.MustCompile(`Error: Invariant (\S+) is violated`)
-var reProp = regexp.MustCompile(`Error: (Temporal properties were violated|Action property (\S+) is violated|The postcondition|Assumption|Deadlock reached)`)
+var reProp = regexp.MustCompile(`Error: (Temporal propert(?:y \S+ was|ies were) violated|Action property (\S+) is violated|The postcondition|Assumption|Deadlock reached)`)
 
 var runCounter int
 var runMu sync.Mutex
